@@ -1,5 +1,6 @@
 import P2PVerif.Model.KeWorld
 import P2PVerif.Lemmas.KeAuth
+import P2PVerif.Lemmas.SrcVec
 /-! # C03 — a session is usable only after the peer proved its key for this handshake
 Property theorems only. `Reach hk W`: any number of honest sessions (keys marked by `hk`), every message they
 receive built by a symbolic adversary (`Buildable`) that owns any number of keys and ephemerals, controls the
@@ -50,6 +51,34 @@ theorem gates (s : Sess) (w : Wire) (now : Nat) (p : Bytes) :
     ((s.deliver w now).2 = .app p → s.canReceive = true) ∧
     (∀ out, (s.send p now).2 = some out → s.canSend = true) :=
   P2PKE.gates s w now p
+
+/-- ⊢ regenerated gates: the definitions of `Session.canSend`, `canReceive` and `IsReady` REGENERATED from
+    p/p2pke/session.go are the model's gates (handshake indices fit the `uint8` field). -/
+theorem src_gates_are_model (s : Sess) (h : s.hs < 256) :
+    Src.p2pke.Session.canSend s.isInit (UInt8.ofNat s.hs) = .ok s.canSend ∧
+    Src.p2pke.Session.canReceive (UInt8.ofNat s.hs) = .ok s.canReceive ∧
+    Src.p2pke.Session.IsReady s.isInit (UInt8.ofNat s.hs) = .ok s.isReady :=
+  ⟨Src.canSend_eq s h, Src.canReceive_eq s h, Src.IsReady_eq s h⟩
+
+/-- ⊢ regenerated send gate, stated outright: the source lets a responder encrypt only from handshake index 2
+    (the InitDone, carrying the initiator's transcript signature, has been verified) and an initiator only from
+    index 3 (the RespDone); it accepts data only from index 2. -/
+theorem src_send_gate (isInit : Bool) (hs : UInt8) :
+    (Src.p2pke.Session.canSend isInit hs = .ok true → (isInit = true → 3 ≤ hs.toNat) ∧ (isInit = false → 2 ≤ hs.toNat)) ∧
+    (Src.p2pke.Session.canReceive hs = .ok true → 2 ≤ hs.toNat) := by
+  unfold Src.p2pke.Session.canSend Src.p2pke.Session.canReceive
+  simp only [Go.pure_eq, Except.ok.injEq, Bool.or_eq_true, Bool.and_eq_true, decide_eq_true_eq, Bool.not_eq_true',
+    ge_iff_le, UInt8.le_iff_toNat_le]
+  refine ⟨fun h => ⟨fun hi => ?_, fun hi => ?_⟩, fun h => h⟩
+  · rcases h with h | h
+    · exact h.2
+    · rw [hi] at h; exact absurd h.1 (by decide)
+  · rcases h with h | h
+    · rw [hi] at h; exact absurd h.1 (by decide)
+    · exact h.2
+
+example : Src.p2pke.Session.canSend false 1 = .ok false ∧ Src.p2pke.Session.canSend false 3 = .ok true ∧
+    Src.p2pke.Session.IsReady true 2 = .ok false ∧ Src.p2pke.Session.IsReady true 4 = .ok true := ⟨rfl, rfl, rfl, rfl⟩
 
 -- non-vacuity: a completed honest handshake exists in the reachable worlds
 example :
